@@ -150,6 +150,7 @@ class AsyncFIXConnection:
         self._message_last_time = 0.0
         self._max_seq_num_resend = 0
         self._test_req_id = None
+        self._logon_sent = False
         self._socket_reader: asyncio.StreamReader = None
         self._socket_writer: asyncio.StreamWriter = None
         self._host = host
@@ -210,6 +211,7 @@ class AsyncFIXConnection:
         self._disconnect_in_progress = asyncio.get_running_loop().create_future()
         try:
             self._test_req_id = None
+            self._logon_sent = False
             self._message_last_time = 0.0
             self._max_seq_num_resend = 0
             # unprocessed (partial) data of this connection must not leak into next
@@ -311,6 +313,8 @@ class AsyncFIXConnection:
         )
 
         self._socket_writer.write(encoded_msg)
+        if msg.msg_type == FMsg.LOGON:
+            self._logon_sent = True
         await self._socket_writer.drain()
 
     async def send_test_req(self):
@@ -895,13 +899,14 @@ class AsyncFIXConnection:
                     return
                 await self._state_set(ConnectionState.LOGON_INITIAL_RECV)
                 self._connection_role = ConnectionRole.ACCEPTOR
-            elif (
-                self._connection_state == ConnectionState.LOGON_INITIAL_SENT
-                and msg.msg_type != FMsg.LOGON
-                and msg.msg_type != FMsg.LOGOUT
+            elif self._connection_state == ConnectionState.LOGON_INITIAL_SENT and (
+                (msg.msg_type != FMsg.LOGON and msg.msg_type != FMsg.LOGOUT)
+                or not self._logon_sent
             ):
                 # Applicable only for initiator, nothing but Logon() response (or
-                #  Logout()) is expected until the Logon exchange is completed
+                #  Logout()) is expected until the Logon exchange is completed, and
+                #  not before our own Logon() was written (state is set earlier, the
+                #  on_state_change() hook runs in between)
                 await self.disconnect(ConnectionState.DISCONNECTED_BROKEN_CONN)
                 return
 
